@@ -349,14 +349,22 @@ class PulseSpec:
 def _sink_after_error(cls):
     """After a reported failure the model has lost track of the implementation: the successor becomes a sink
     (self-loops only) so that a diverged product is not explored (it would only produce follow-up noise)."""
-    inner = cls.step
+    inner, inner_init = cls.step, cls.model_init
+
+    def model_init(self, sysm):
+        self._root = sysm.read()
+        return inner_init(self, sysm)
 
     def step(self, sysm, m, a):
         if m == "ERR":
             return m, [], ()
         m2, errs, flags = inner(self, sysm, m, a)
-        return ("ERR" if errs else m2), errs, flags
-    cls.step = step
+        if errs:
+            # one sink for all failures: put the implementation back to its reset state
+            sysm.load(self._root)
+            return "ERR", errs, flags
+        return m2, errs, flags
+    cls.step, cls.model_init = step, model_init
     return cls
 
 
@@ -408,19 +416,24 @@ def configs(rep):
                         for edge in ("pos", "neg"):
                             if q and edge == "neg" and (dom == "none" or stages == 4):
                                 continue
-                            if q and dom == "async" and reset_less and width * stages > 6:
+                            # thorough: the largest lines (width*stages = 12) on posedge domains, extreme init values only
+                            if width * stages >= 12 and (edge == "neg" or init == 1):
+                                continue
+                            # reset_less flops in an asynchronously reset domain: kept to the smaller sizes (while the
+                            # simulator clocks them on the reset edge the diverged product is many times larger)
+                            if dom == "async" and reset_less and width * stages > (6 if q else 8):
                                 continue
                             out.append({"kind": "FFSynchronizer", "stages": stages, "width": width, "signed": signed, "init": init,
                                         "reset_less": reset_less, "dom": dom, "edge": edge})
     # AsyncFFSynchronizer / ResetSynchronizer
-    for stages in ((2, 3) if q else (2, 3, 4, 5)):
+    for stages in ((2, 3) if q else (2, 3, 4, 5, 6)):
         for i_init in (0, 1):
             for ae in ("pos", "neg"):
                 out.append({"kind": "AsyncFFSynchronizer", "stages": stages, "async_edge": ae, "i_init": i_init})
             for dom_async in (False, True):
                 out.append({"kind": "ResetSynchronizer", "stages": stages, "async_edge": "pos", "i_init": i_init, "dom_async": dom_async})
     # PulseSynchronizer
-    for stages in ((2, 3) if q else (2, 3, 4, 5)):
+    for stages in ((2, 3) if q else (2, 3, 4, 5, 6, 7)):
         for same in (False, True):
             for i_edge in ("pos", "neg"):
                 for o_edge in ("pos", "neg"):
@@ -528,7 +541,7 @@ def replay(payload):
     spec = make_spec(d)
     idx = [spec.actions.index(tuple(a)) for a in payload["path"]]
     key, errs = replay_path(spec, idx)
-    out = [f"step {i}: {e}" for i, e in errs]
+    out = [f"at action {spec.actions[i]}: {e}" for i, e in errs]
     if payload.get("mismatch") and not out:
         # the recorded problem was a divergence between state injection and replay from reset: re-check on a one-path exploration
         res = explore(spec, procs=1, replay_n=10**9, cap_states=2_000_000)
